@@ -10,7 +10,7 @@ EXPLANATION = (
     "variants, both children of a binary formula, f applied to the rebuilt node). FRESH-LIT(ii): here/there are prepend_predicate with two "
     "different literal prefixes, inserted at index 0 of the predicate symbol of every atom and of nothing else, so the two copies of a predicate "
     "are distinct and the renaming is a total injective map per world. With these two facts the property follows by induction on the formula "
-    "from the cited definition; the induction itself is the literature's.")
+    "from the cited definition; the induction itself is the literature's. SHARED: gamma's result reaches the user as text - the default printer's precedence and dispatch obligations (C15) run here too.")
 UNDECIDED = ["the induction proof that the definition of gamma has the stated semantics (literature)",
              "a user predicate whose name already starts with h/t colliding with a copy, e.g. p/1 and hp/1 with tp/1 (namespace overlap, C09)"]
 ASSUMPTIONS = ["Pearce's gamma characterises HT satisfaction over (H,T) with H subset of T"]
